@@ -166,11 +166,11 @@ Section Proofs.
   Proof.
     induction stk as [|[l o] rest IH]; intros e S We Re; simpl.
     - auto.
-    - destruct S as (Wl & Ll & Tl & Sh & Sr).
-      destruct (IH (Bin o l e)) as [W T]; auto.
-      + simpl; auto.
-      + destruct rest as [|[? o0] ?]; simpl; auto.
-      + split; auto. rewrite T. simpl. rewrite <- !app_assoc. reflexivity.
+    - destruct S as (Wl & Ll & Tl & Sh & Sr). simpl in Re.
+      assert (W1 : wf (Bin o l e)) by (simpl; auto).
+      assert (W2 : top_right_ok rest (Bin o l e)) by (destruct rest as [|[l0 o0] rest0]; simpl; auto).
+      destruct (IH (Bin o l e) Sr W1 W2) as [W T].
+      split; auto. rewrite T. simpl. rewrite <- !app_assoc. reflexivity.
   Qed.
 
   Lemma reduce_all_sound : forall stk e o stk' e', stk_ok stk -> wf e -> top_right_ok stk e ->
@@ -183,10 +183,12 @@ Section Proofs.
       destruct (cmp o1 o) eqn:E; try discriminate.
       + inversion R; subst. split; [|reflexivity].
         simpl. repeat split; auto.
-      + apply IH in R; auto.
-        * destruct R as [R1 R2]. split; auto. rewrite R2. simpl. rewrite <- !app_assoc. reflexivity.
-        * simpl; auto.
-        * destruct rest as [|[? o0] ?]; simpl; auto.
+      + simpl in Re.
+        assert (W1 : wf (Bin o1 l e)) by (simpl; auto).
+        assert (W2 : top_right_ok rest (Bin o1 l e)) by (destruct rest as [|[l0 o0] rest0]; simpl; auto).
+        assert (W3 : left_ok atom lvl asc o (Bin o1 l e)) by (simpl; auto).
+        destruct (IH _ _ _ _ Sr W1 W2 W3 R) as [R1 R2].
+        split; auto. rewrite R2. simpl. rewrite <- !app_assoc. reflexivity.
   Qed.
 
   Definition state_ok (frames : list stack) (stk : stack) (cur : option expr) : Prop :=
@@ -199,32 +201,31 @@ Section Proofs.
     induction ts as [|t r IH]; intros frames stk cur e (F & S & C) R; simpl in R.
     - destruct cur as [c|]; try discriminate. destruct frames; try discriminate.
       inversion R; subst. destruct C as [Wc Nc].
-      destruct (reduce_end_sound stk c) as [W T]; auto.
-      + apply (nonbin_ok c stk OpPipe Nc).
-      + split; auto. rewrite T. simpl. rewrite app_nil_r. reflexivity.
+      destruct (nonbin_ok c stk OpPipe Nc) as [N1 _].
+      destruct (reduce_end_sound stk c S Wc N1) as [W T].
+      split; auto. rewrite T. simpl. rewrite app_nil_r. reflexivity.
     - destruct t as [a|o| |].
-      + destruct cur; try discriminate. apply IH in R.
-        * destruct R as [W T]. split; auto. rewrite T. simpl. reflexivity.
-        * repeat split; simpl; auto.
+      + destruct cur; try discriminate.
+        assert (ST : state_ok frames stk (Some (Atom a))) by (split; [assumption|split; [assumption|simpl; auto]]).
+        destruct (IH _ _ _ _ ST R) as [W T]. split; auto.
       + destruct cur as [c|]; try discriminate. destruct C as [Wc Nc].
         destruct (reduce_all stk c o) as [[stk' e']|] eqn:RA; try discriminate.
-        apply reduce_all_sound in RA; auto; try apply (nonbin_ok c stk o Nc).
-        destruct RA as [S' T'].
-        apply IH in R.
-        * destruct R as [W T]. split; auto. rewrite T. simpl.
-          rewrite <- !app_assoc. rewrite (app_assoc (stk_toks stk')). rewrite T'.
-          rewrite <- !app_assoc. reflexivity.
-        * repeat split; auto.
-      + destruct cur; try discriminate. apply IH in R.
-        * destruct R as [W T]. split; auto. rewrite T. simpl. rewrite <- !app_assoc. reflexivity.
-        * repeat split; simpl; auto.
+        destruct (nonbin_ok c stk o Nc) as [N1 N2].
+        destruct (reduce_all_sound _ _ _ _ _ S Wc N1 N2 RA) as [S' T'].
+        assert (ST : state_ok frames ((e', o) :: stk') None) by (split; [exact F|split; [exact S'|exact I]]).
+        destruct (IH _ _ _ _ ST R) as [W T]. split; auto. rewrite T. simpl.
+        rewrite <- !app_assoc. rewrite (app_assoc (stk_toks stk')). rewrite T'.
+        rewrite <- !app_assoc. reflexivity.
+      + destruct cur; try discriminate.
+        assert (ST : state_ok (stk :: frames) [] None) by (split; [constructor; assumption|split; simpl; auto]).
+        destruct (IH _ _ _ _ ST R) as [W T]. split; auto. rewrite T. simpl. rewrite <- !app_assoc. reflexivity.
       + destruct cur as [c|]; try discriminate. destruct frames as [|f fs]; try discriminate.
         destruct C as [Wc Nc]. inversion F; subst.
-        destruct (reduce_end_sound stk c) as [W' T']; auto; try apply (nonbin_ok c stk OpPipe Nc).
-        apply IH in R.
-        * destruct R as [W T]. split; auto. rewrite T. simpl. rewrite T'.
-          rewrite <- !app_assoc. simpl. rewrite <- !app_assoc. reflexivity.
-        * repeat split; simpl; auto.
+        destruct (nonbin_ok c stk OpPipe Nc) as [N1 _].
+        destruct (reduce_end_sound stk c S Wc N1) as [W' T'].
+        assert (ST : state_ok fs f (Some (Paren (reduce_end stk c)))) by (split; [assumption|split; [assumption|simpl; auto]]).
+        destruct (IH _ _ _ _ ST R) as [W T]. split; auto. rewrite T. simpl. rewrite T'.
+        repeat (rewrite <- ?app_assoc; simpl). reflexivity.
   Qed.
 
   Theorem parse_sound : forall ts e, parse ts = Some e -> wf e /\ toks e = ts.
